@@ -35,7 +35,7 @@ fn meta() -> Meta {
     Meta {
         id: "C18",
         level: "model_checking",
-        rule: "every word up to the depth bound over {W(5), W(80) (> buffer capacity 64), F, ExtRename, ExtRemove, Reopen, Reset(basename), Reset(directory), Reset(rotation toggled), R, ExtRename of the additional file writer's file}; every write also sends one record to the additional file writer X x {Direct, BufferDontFlush(64), BufferAndFlush(64)} x {no rotation, Numbers, TimestampsDirect}; external rename/remove applies to the file currently written to and is only issued when that file exists; states = distinct model states (number of physical files, their record counts) reached, non-trivial = word contains an external rename/remove followed by a reopen, or a reset, with writes before and after; every word with append on and off; ReopenFault = reopen_output while the first re-open it attempts fails by injection (the error is returned, the other writer is switched nevertheless; in the units with append, once the writers are active, the failure is real instead: the directory tree is moved away for the duration of the call, the error is returned and both writers keep the files they have open; in the units without append, when the current file was moved or removed before, a directory is put at its path for the duration of the call: the error is returned and the records logged afterwards are either in the file the writer had open or in the visible substitute file the re-open code leaves next to the path); ExtRenameCreate = rename the current file and create an empty file at its path (logrotate create); plus log_to_file_and_writer (a second FileLogWriter that gets every record): W W, both files renamed, reopen_output, W W; plus a symlinked log file path whose link is renamed before reopen_output",
+        rule: "every word up to the depth bound over {W(5), W(80) (> buffer capacity 64), F, ExtRename, ExtRemove, Reopen, Reset(basename), Reset(directory), Reset(rotation toggled), R, ExtRename of the additional file writer's file}; every write also sends one record to the additional file writer X x {Direct, BufferDontFlush(64), BufferAndFlush(64)} x {no rotation, Numbers, TimestampsDirect}; external rename/remove applies to the file currently written to and is only issued when that file exists; states = distinct model states (number of physical files, their record counts) reached, non-trivial = word contains an external rename/remove followed by a reopen, or a reset, with writes before and after; every word with append on and off; ReopenFault = reopen_output while the first re-open it attempts fails by injection (the error is returned, the other writer is switched nevertheless; in the units with append, once the writers are active, the failure is real instead: the directory tree is moved away for the duration of the call, the error is returned and both writers keep the files they have open; in the units without append, when the current file was moved or removed before, a directory is put at its path for the duration of the call: the error is returned and the records logged afterwards are either in the file the writer had open or in the visible substitute file the re-open code leaves next to the path); ExtRenameCreate = rename the current file and create an empty file at its path (logrotate create); plus log_to_file_and_writer (a second FileLogWriter that gets every record): W W, both files renamed, reopen_output, W W; plus a symlinked log file path whose link is renamed before reopen_output; E2: reopen_output() after an external rename racing with a thread that logs two records, {Direct, BufferDontFlush(8), BufferDontFlush(64)}, state mutex not modelled (threads really block), all schedules with <= 2 (quick) / 3 (thorough) preemptions: a re-open that returned Ok has created the file at its path, the record logged afterwards is at the end of that file, the two files hold every record once in per-thread order",
         assumptions: vec![
             "size limit huge (rotation only when triggered), append on (a reset back to an earlier family continues it)".into(),
             "records the user destroyed with ExtRemove are exempt".into(),
@@ -862,7 +862,177 @@ fn symlinked_file(mode: ModeK) -> Result<(), Fail> {
     Ok(())
 }
 
+
+// ---------------------------------------------------------------- E2: reopen_output() races with a logging thread
+
+#[derive(Debug, Clone, PartialEq)]
+struct RaceObs {
+    result: Result<(), (String, String)>,
+    shape: String,
+}
+
+fn race_modes() -> Vec<ModeK> {
+    vec![ModeK::Direct, ModeK::BufDont(8), ModeK::BufDont(64)]
+}
+
+fn race_cfg() -> crate::sched::SchedCfg {
+    crate::sched::SchedCfg {
+        ignore: vec!["flw_pool_pop", "set_max_level", "symlink_remove", "symlink_create", "flush", "std_pool_pop"],
+        detect_real_blocking: true,
+        // the state mutex is not modelled from its hooks: a thread really blocks on it, so a
+        // re-open that does not wait for the lock is not masked by the model
+        nonblocking_locks: vec!["flw_state"],
+        ..crate::sched::SchedCfg::default()
+    }
+}
+
+/// One record, then thread `log` writes two records while thread `reopen` renames the log file
+/// away and calls reopen_output(); after both have ended one more record, shutdown. Judged: a
+/// re-open that returned Ok has created the file at its path again, the record logged after it is
+/// at the end of that file, and the two files together hold every record once, in logging order
+/// per thread.
+fn race_body(mode: ModeK) -> std::sync::Arc<dyn Fn(&std::sync::Arc<crate::sched::Sched>) -> RaceObs + Send + Sync> {
+    use std::sync::{Arc, Mutex};
+    Arc::new(move |s: &Arc<crate::sched::Sched>| {
+        let env = Env::in_current("c18r");
+        let mut cfg = Cfg::norot();
+        cfg.mode = mode;
+        let (logger, handle) = match cfg.logger(&env.dir, &env.err).build() {
+            Ok(x) => x,
+            Err(e) => {
+                return RaceObs {
+                    result: Err(("build-error".into(), e.to_string())),
+                    shape: String::new(),
+                }
+            }
+        };
+        let logger: Arc<Box<dyn Log>> = Arc::new(logger);
+        let cur = env.dir.join("app.log");
+        let moved = env.root.path().join("moved-away.log");
+        lg::log_info(&**logger, "0.0:first");
+        let l1 = Arc::clone(&logger);
+        let t1 = s.spawn("log", move || {
+            lg::log_info(&**l1, "1.0:while-a");
+            lg::log_info(&**l1, "1.1:while-b");
+        });
+        let res: Arc<Mutex<Option<(bool, bool)>>> = Arc::new(Mutex::new(None));
+        let (h2, cur2, moved2, res2) = (handle.clone(), cur.clone(), moved.clone(), Arc::clone(&res));
+        let t2 = s.spawn("reopen", move || {
+            let renamed = std::fs::rename(&cur2, &moved2).is_ok();
+            let ok = h2.reopen_output().is_ok();
+            let there = cur2.exists();
+            *res2.lock().unwrap() = Some((ok && renamed, there));
+            drop(h2);
+        });
+        s.join(t1);
+        s.join(t2);
+        lg::log_info(&**logger, "0.1:last");
+        handle.shutdown();
+        drop(handle);
+        drop(logger);
+        let a = String::from_utf8_lossy(&std::fs::read(&moved).unwrap_or_default()).to_string();
+        let b = String::from_utf8_lossy(&std::fs::read(&cur).unwrap_or_default()).to_string();
+        let shape = format!("{}|{}", a.lines().map(|l| &l[..3]).collect::<Vec<_>>().join(","), b.lines().map(|l| &l[..3]).collect::<Vec<_>>().join(","));
+        let result = (|| {
+            let (ok, there) = res.lock().unwrap().unwrap_or((false, false));
+            if ok && !there {
+                return Err(("reopen-without-effect".to_string(), format!("the log file was renamed away, reopen_output() returned Ok, but there is no file at {} when it returns (another thread was logging at that moment); moved file {a:?}, file at the path now {b:?}", cur.display())));
+            }
+            if ok && !b.ends_with("0.1:last\n") {
+                return Err(("record-in-old-file".to_string(), format!("reopen_output() returned Ok, the record logged after it must be at the end of the file at the log path: moved file {a:?}, file at the path {b:?}")));
+            }
+            let all = format!("{a}{b}");
+            let lines: Vec<&str> = all.lines().collect();
+            for want in ["0.0:first", "1.0:while-a", "1.1:while-b", "0.1:last"] {
+                if lines.iter().filter(|l| **l == want).count() != 1 {
+                    return Err(("line-missing".to_string(), format!("record {want:?} is not exactly once in the two files: moved file {a:?}, file at the path {b:?}")));
+                }
+            }
+            let pos = |w: &str| lines.iter().position(|l| *l == w).unwrap_or(0);
+            if pos("1.0:while-a") > pos("1.1:while-b") || pos("0.0:first") > pos("0.1:last") || lines.len() != 4 || !all.ends_with('\n') {
+                return Err(("order-broken".to_string(), format!("moved file {a:?}, file at the path {b:?}")));
+            }
+            let errs = env.errlines();
+            if !errs.is_empty() {
+                return Err(("error-channel".to_string(), format!("{errs:?}")));
+            }
+            Ok(())
+        })();
+        RaceObs { result, shape }
+    })
+}
+
+fn run_race_unit(tier: &str, idx: usize, out: &mut Out) {
+    use crate::sched::{self, Abort};
+    let mode = race_modes()[idx];
+    let bound = if tier == "quick" { 2 } else { 3 };
+    let cfg = race_cfg();
+    let b = race_body(mode);
+    let name = format!("reopen-race/{}", super::c08::mode_class(mode));
+    let clock = || Some(crate::hooks::VClock::new(crate::hooks::base_instant()));
+    let mut first_bad: Option<Violation> = None;
+    let mut machinery: Option<String> = None;
+    let mut outcomes: BTreeMap<String, u64> = BTreeMap::new();
+    let stats = sched::explore(&cfg, Some(bound), 100_000, &clock, b.clone(), &mut |choices, ex| {
+        if ex.stalled {
+            machinery = Some(format!("execution stalled; schedule {choices:?}"));
+            return false;
+        }
+        if let Some(Abort::Diverged(m)) = &ex.abort {
+            machinery = Some(format!("replay diverged: {m}; schedule {choices:?}"));
+            return false;
+        }
+        let case = json!({"reopen_race": idx, "schedule": choices});
+        let bad: Option<(String, String)> = match (&ex.abort, &ex.obs) {
+            (Some(Abort::Deadlock(d)), _) => Some(("deadlock".into(), d.clone())),
+            (_, Some(o)) => match &o.result {
+                Ok(()) => {
+                    *outcomes.entry(o.shape.clone()).or_insert(0) += 1;
+                    None
+                }
+                Err((c, d)) => Some((c.clone(), d.clone())),
+            },
+            _ => None,
+        };
+        if let Some((c, d)) = bad {
+            if first_bad.as_ref().map_or(true, |v| v.case["schedule"].as_array().map_or(0, Vec::len) > choices.len()) {
+                first_bad = Some(Violation::new(&c, format!("Reopen/{}/racing-with-a-logging-thread", super::c08::mode_class(mode)), format!("mode={mode:?} schedule={choices:?}\n  {d}"), case));
+            }
+        }
+        true
+    });
+    out.evaluations += stats.schedules;
+    out.traces_validated += stats.schedules;
+    out.transitions += stats.choice_points;
+    out.count("reopen_race_schedules", stats.schedules);
+    for (k, n) in outcomes {
+        *out.outcomes.entry(format!("{name}: {k}")).or_insert(0) += n;
+    }
+    if stats.capped {
+        out.capped = true;
+    }
+    if let Some(m) = machinery {
+        out.violation(Violation::new("machinery", "scheduler", format!("{name}: {m}"), json!({"reopen_race": idx})));
+        out.capped = true;
+        return;
+    }
+    if let Some(v) = first_bad {
+        let sch: Vec<usize> = v.case["schedule"].as_array().into_iter().flatten().filter_map(|x| x.as_u64().map(|n| n as usize)).collect();
+        let e1 = sched::run_once(&cfg, &sch, clock(), b.clone());
+        let e2 = sched::run_once(&cfg, &sch, clock(), b.clone());
+        let k = |e: &sched::Execution<RaceObs>| (e.abort.is_some(), e.obs.as_ref().map(|o| o.result.as_ref().err().map(|x| x.0.clone())));
+        if k(&e1) == k(&e2) && (e1.abort.is_some() || e1.obs.as_ref().is_some_and(|o| o.result.is_err())) {
+            out.violation(v);
+        } else {
+            out.violation(Violation::new("nondeterministic", "replay-diverged", v.detail.clone(), v.case.clone()));
+        }
+    }
+}
+
 fn run_unit(tier: &str, unit: usize, out: &mut Out) {
+    if (3..3 + race_modes().len()).contains(&unit) {
+        run_race_unit(tier, unit - 3, out);
+    }
     if unit == 0 {
         out.evaluations += 1;
         let case = json!({"stdout_primary": true});
@@ -934,6 +1104,24 @@ fn run_unit(tier: &str, unit: usize, out: &mut Out) {
 }
 
 fn replay(case: &Value) -> Vec<Violation> {
+    if let Some(idx) = case["reopen_race"].as_u64() {
+        let Some(mode) = race_modes().get(idx as usize).copied() else { return vec![] };
+        let sch: Vec<usize> = case["schedule"].as_array().into_iter().flatten().filter_map(|x| x.as_u64().map(|n| n as usize)).collect();
+        let mut cfg = race_cfg();
+        cfg.keep_log = true;
+        let ex = crate::sched::run_once(&cfg, &sch, Some(crate::hooks::VClock::new(crate::hooks::base_instant())), race_body(mode));
+        println!("replay C18 (reopen_output racing with a logging thread): mode={mode:?} schedule={sch:?}");
+        for l in &ex.log {
+            println!("  {l}");
+        }
+        println!("  observation: {:?} abort={:?}", ex.obs, ex.abort);
+        let cause = format!("Reopen/{}/racing-with-a-logging-thread", super::c08::mode_class(mode));
+        return match (&ex.abort, &ex.obs) {
+            (Some(crate::sched::Abort::Deadlock(d)), _) => vec![Violation::new("deadlock", cause, d.clone(), case.clone())],
+            (_, Some(o)) => o.result.as_ref().err().map(|(c, d)| Violation::new(c, cause, d.clone(), case.clone())).into_iter().collect(),
+            _ => vec![],
+        };
+    }
     if case["stdout_primary"].as_bool() == Some(true) {
         println!("replay C18: stdout as primary output, two additional FileLogWriters");
         return match run_isolated(Duration::from_secs(30), stdout_primary) {
